@@ -1832,6 +1832,14 @@ export class AnyOfDiscriminatedRuntype extends BaseRuntype {
     this.ensureContextualDefinition(syntheticRefName, runtype, ctx);
     return printingContext.getRef(syntheticRefName);
   }
+  // only own keys of the mapping are variants: "toString", "constructor", "__proto__" and
+  // non-string discriminator values must not reach Object.prototype
+  private lookupVariant(d: unknown): Runtype | undefined {
+    if (typeof d !== "string" || !Object.prototype.hasOwnProperty.call(this.mapping, d)) {
+      return undefined;
+    }
+    return this.mapping[d];
+  }
   validate(ctx: ValidateContext, input: unknown): boolean {
     if (typeof input !== "object" || input == null) {
       return false;
@@ -1840,7 +1848,7 @@ export class AnyOfDiscriminatedRuntype extends BaseRuntype {
     if (d == null) {
       return false;
     }
-    const v = this.mapping[d];
+    const v = this.lookupVariant(d);
     if (v == null) {
       return false;
     }
@@ -1848,7 +1856,7 @@ export class AnyOfDiscriminatedRuntype extends BaseRuntype {
     return v.validate(ctx, input);
   }
   parseAfterValidation(ctx: ParseContext, input: any): unknown {
-    const parser = this.mapping[input[this.discriminator]];
+    const parser = this.lookupVariant(input[this.discriminator]);
     if (parser == null) {
       throw new Error(
         "INTERNAL ERROR: Missing parser for discriminator " + JSON.stringify(input[this.discriminator]),
@@ -1868,7 +1876,7 @@ export class AnyOfDiscriminatedRuntype extends BaseRuntype {
     if (d == null) {
       return buildError(ctx, "expected discriminator key " + JSON.stringify(this.discriminator), input);
     }
-    const v = this.mapping[d];
+    const v = this.lookupVariant(d);
     if (v == null) {
       pushPath(ctx, this.discriminator);
       const errs = buildError(
